@@ -37,8 +37,14 @@ EXPLANATION = (
     '(D14) content invariant of the reflector-size array: every write stores 1, 2 or 3 with size + column <= n (the size-3 case '
     'only at calls whose third argument is not the literal zero), every column of a block gets a size, and the readers use the '
     'invariant: the vector form of apply_PX reads entry k+1 only for size >= 2 and entry k+2 only for size 3. '
-    'Does NOT decide NaN-freedom in general, BKLDLT::solve_inplace (depends on the sign pattern of the stored permutation: a block '
-    'structure invariant of an array), or undefined behaviour outside these clauses.')
+    '(D15) BKLDLT::solve_inplace through a block-structure (regular-shape) invariant of the permutation array: the sign string of m_perm is a '
+    'word of (P | NN)* -- writers tabulated and checked (reset to 0..n-1, one non-negative store per 1x1 pivot, one adjacent negative pair per 2x2 '
+    'pivot marked after the stores, factorization loop advancing by the size of the block it marked) -- every sign-directed scan of the '
+    'reader keeps the alignment (one extra step in the negative branch after the last use of the position; forward scans start at 0, the '
+    'backward scan one before the last block), and with the positional facts this gives (i + 1 <= n - 1 resp. i - 1 >= 0 at an aligned negative '
+    'entry) all index / view sites of solve_inplace are inside their arrays, once for each sign of the last entry; the compressed interchange list '
+    'holds pairs in [0, n)^2 only and is rebuilt by every compute(). '
+    'Does NOT decide NaN-freedom in general or undefined behaviour outside these clauses.')
 ASSUMPTIONS = ['class invariants = negation of the constructor guards (C12 shows they equal the documented ranges)',
                'elements of an index vector returned by the ordering primitive lie in [0, length) (C18: it is a permutation)',
                'the small decompositions of the ncv x ncv matrix H return ncv eigenvalues and ncv x ncv eigenvectors',
@@ -196,6 +202,112 @@ def _sites(fn):
     return out
 
 
+SIZE_KEEPING = ('setZero', 'setOnes', 'setConstant', 'setRandom', 'fill')
+
+
+def _elementwise_length(fn, node, fext, lext, depth=0):
+    """Length (zone linear form) of a coefficient-wise expression over one-dimensional operands: the length of every operand whose
+    extent is known (a field with a declared extent, a local with a constructed / copied extent, a head / tail / segment view).
+    Returns the set of distinct lengths found (empty: unknown)."""
+    out = set()
+    if depth > 4:
+        return out
+    for x in fn.walk(node['id'] if isinstance(node, dict) else node):
+        if x['k'] == 'CXXMemberCallExpr' and x.get('callee') in ('head', 'tail') and x.get('org') == 'E':
+            a = fn.call_args(x)
+            ln = zone.linear(fn, a[0]) if a else None
+            if ln is not None:
+                out.add(ln)
+        elif x['k'] == 'CXXMemberCallExpr' and x.get('callee') == 'segment' and x.get('org') == 'E':
+            a = fn.call_args(x)
+            ln = zone.linear(fn, a[1]) if len(a) == 2 else None
+            if ln is not None:
+                out.add(ln)
+        elif x['k'] == 'DeclRefExpr' and 'var' in x and ('v', x['var']) in lext and lext[('v', x['var'])][0] and len(lext[('v', x['var'])][0]) == 1:
+            # a whole local array used as an operand (not the object of a view call: those are handled above)
+            par = fn.node(fn.parent.get(x['id'], -1))
+            while par is not None and par['k'] in ('ImplicitCastExpr', 'ParenExpr', 'MaterializeTemporaryExpr'):
+                par = fn.node(fn.parent.get(par['id'], -1))
+            if par is not None and par['k'] == 'MemberExpr' and par.get('member') in ('head', 'tail', 'segment'):
+                continue
+            out.add(lext[('v', x['var'])][0][0])
+        elif x['k'] == 'DeclRefExpr' and 'var' in x and x['var'] not in fn.params:
+            # a local array initialised by a coefficient-wise expression: its length is that expression's
+            lv = fn.locals.get(x['var'])
+            if lv is not None and lv['type'].replace('const ', '').startswith(('Eigen::Array<', 'Eigen::Matrix<')) and ('v', x['var']) not in lext:
+                for dn in fn.walk():
+                    if dn['k'] == 'DeclStmt':
+                        for d in dn.get('decls', []):
+                            if d.get('var') == x['var'] and 'init' in d:
+                                out |= _elementwise_length(fn, fn.nodes[d['init']], fext, lext, depth + 1)
+    return out
+
+
+def field_extents_preserved(ctx, base, comp, fns, fext, rule='index-within-extent'):
+    """The index proofs take the extent of each solver array from the resize calls of init().  Every other statement that replaces
+    such an array as a whole -- swap with a local, whole-array assignment -- must leave it with the same extent, or the proofs of
+    the NEXT member that runs (a compute() that follows another compute() included) rest on a stale size."""
+    short = base.replace('Spectra::', '')
+    probs = []
+    nsite = 0
+    for fn in fns:
+        if fn.name == 'init' or fn.d.get('ctor'):
+            continue
+        lext = _local_extents(fn)
+        for x in fn.walk():
+            if x['k'] == 'CXXMemberCallExpr' and x.get('callee') == 'swap' and x.get('org') == 'E':
+                o, a = fn.strip(fn.call_object(x)), fn.strip(fn.call_args(x)[0]) if fn.call_args(x) else None
+                pair = [(fn.field_name(o), a), (fn.field_name(a) if a is not None else None, o)]
+                for f, other in pair:
+                    if f not in fext or other is None:
+                        continue
+                    nsite += 1
+                    of = fn.field_name(other)
+                    if of in fext:
+                        got = fext[of]
+                    elif other['k'] == 'DeclRefExpr' and 'var' in other and ('v', other['var']) in lext:
+                        got = lext[('v', other['var'])][0]
+                    else:
+                        got = None
+                    if got is None or any(g_ is None for g_ in got):
+                        raise AnalysisBroken('%s::%s: `%s` replaces %s by an object whose extent the analysis cannot determine' % (comp.record, fn.name, fn.s(x)[:50], f))
+                    if got != fext[f]:
+                        probs.append('%s: `%s` leaves %s with extent %s; init() gives it %s and every index proof assumes that' %
+                                     (fn.name, fn.s(x)[:50], f, _fmt_ext(got), _fmt_ext(fext[f])))
+            elif x['k'] == 'CXXMemberCallExpr' and x.get('callee') in ('resize', 'conservativeResize') and x.get('org') == 'E':
+                f = fn.field_name(fn.strip(fn.call_object(x))) if fn.call_object(x) is not None else None
+                if f in fext:
+                    nsite += 1
+                    got = [zone.linear(fn, a_) for a_ in fn.call_args(x)]
+                    if got != fext[f]:
+                        probs.append('%s: `%s` gives %s the extent %s instead of %s' % (fn.name, fn.s(x)[:50], f, _fmt_ext(got), _fmt_ext(fext[f])))
+            elif x['k'] == 'CXXOperatorCallExpr' and x.get('op') == '=':
+                a = fn.call_args(x)
+                f = fn.field_name(fn.strip(a[0])) if a else None
+                if f in fext and len(fext[f]) == 1:
+                    nsite += 1
+                    got = _elementwise_length(fn, a[1], fext, lext)
+                    if not got:
+                        raise AnalysisBroken('%s::%s: `%s` assigns %s an expression whose length the analysis cannot determine' % (comp.record, fn.name, fn.s(x)[:50], f))
+                    if len(got) != 1 or list(got)[0] != fext[f][0]:
+                        probs.append('%s: `%s` assigns %s an expression of length %s; init() gives it %s' %
+                                     (fn.name, fn.s(x)[:50], f, sorted(map(str, got)) or 'unknown', _fmt_ext(fext[f])))
+                elif f in fext:
+                    nsite += 1
+                    probs.append('%s: whole-array assignment `%s` of the two-dimensional %s is outside the extent rule' % (fn.name, fn.s(x)[:50], f))
+    ctx.check(not probs, rule, '%s/extents-preserved' % short, comp.qname,
+              'every swap / resize / whole assignment of %s outside init() keeps the extent init() established (%d sites)' % (sorted(fext), nsite)
+              if not probs else '; '.join(sorted(set(probs))[:4]))
+    return nsite
+
+
+def _fmt_ext(e):
+    if e is None:
+        return 'unknown'
+    return '[' + ', '.join('%s%s' % (a[0][1] if isinstance(a, tuple) and isinstance(a[0], tuple) else a[0] if isinstance(a, tuple) else a,
+                                       ('%+d' % a[1]) if isinstance(a, tuple) and a[1] else '') if a is not None else '?' for a in e) + ']'
+
+
 def index_ranges(ctx, rule='index-within-extent', bases=('Spectra::HermEigsBase', 'Spectra::GenEigsBase'), floor=150):
     n_ok = 0
     for base in bases:
@@ -209,6 +321,9 @@ def index_ranges(ctx, rule='index-within-extent', bases=('Spectra::HermEigsBase'
             for g in ctx.F.concrete():
                 if g.name == 'sort_ritzpair' and g.d.get('overrides') and any(ctx.F.by_mangled.get(o) is not None and ctx.F.by_mangled[o].record == comp.record for o in g.d['overrides']):
                     fns.append(g)
+            npres = field_extents_preserved(ctx, base, comp, fns, fext, rule)
+            if npres < 4:
+                raise AnalysisBroken('%s: only %d whole-array replacements of the solver arrays found (4 confirmed by hand)' % (comp.record, npres))
             # postcondition of nev_adjusted, used as the precondition of restart(k)
             k_pre = None
             for fn in fns:
@@ -1472,6 +1587,15 @@ def run(ctx):
     aligned_access_evidence(ctx)
     pointer_kernel_contracts(ctx)
     reflector_sizes_cover_block(ctx)
+    permutation_sign_structure(ctx)
+
+
+# D15: BKLDLT::solve_inplace -- block-structure invariant of the permutation array (rules/blockscan.py)
+def permutation_sign_structure(ctx, rule='permutation-sign-structure'):
+    from . import blockscan
+    blockscan.writers(ctx, rule)
+    blockscan.compressed_list(ctx, rule)
+    blockscan.readers(ctx, _check_sites, rule)
 
 
 def _run(ctx):
